@@ -196,6 +196,24 @@ func FillOperands(t *rapid.T, c *Case) {
 		if gen.Pick(t, 20, "zeroop") == 0 {
 			c.Y = gen.Zero(t, ctx, "yz")
 		}
+		if c.Op == "mul" && c.Ctx.P != 0 && gen.Pick(t, 20, "mulabove") == 1 {
+			// a product of exactly Precision+1 (or Precision) digits a hair above a power of ten,
+			// at a Precision anywhere in 2..400: the smallest bit length a number of that many
+			// digits can have, which a digit estimate taken from the bit length gets wrong at
+			// isolated digit counts (205, 264, 351, ...)
+			p := 2 + gen.Pick(t, 399, "mulabp") // uniform
+			c.Ctx.P = uint32(p)
+			target := p + 1 - gen.Pick(t, 4, "mulabd")/3 // mostly Precision+1
+			nx := rapid.IntRange(1, target-1).Draw(t, "mulabnx")
+			xb, _ := new(big.Int).SetString(gen.DigitsN(t, nx, 9, "mulabx"), 10)
+			if xb.Sign() == 0 {
+				xb.SetInt64(3)
+			}
+			yb := new(big.Int).Add(new(big.Int).Quo(ref.Pow10(int64(target-1)), xb), big.NewInt(int64(rapid.IntRange(1, 3).Draw(t, "mulabe"))))
+			c.X = gen.FromBig(xb, int64(rapid.IntRange(-5, 5).Draw(t, "mulabxe")))
+			c.Y = gen.FromBig(yb, int64(rapid.IntRange(-5, 5).Draw(t, "mulabye")))
+			c.X.Neg, c.Y.Neg = rapid.Bool().Draw(t, "mulabxn"), rapid.Bool().Draw(t, "mulabyn")
+		}
 	case "quo":
 		c.X, c.Y = gen.Pair(t, ctx, "quo")
 		if c.Y.Coeff == "0" {
@@ -206,6 +224,30 @@ func FillOperands(t *rapid.T, c *Case) {
 		}
 	case "quointeger", "rem":
 		c.X, c.Y = DivPair(t, ctx)
+		if gen.Pick(t, 40, "wordq") == 1 {
+			// the digit limit of the quotient meeting a machine-word limit of the dividend: 2^64
+			// has 20 digits and 2^128 has 39, so at Precision 19 (38) a dividend of one more
+			// digit may still fit one (two) words while its quotient by 1, 2 or 3 does not fit
+			// the precision
+			bits := []uint{64, 128, 256}[gen.Pick(t, 3, "wqb")]
+			top := new(big.Int).Lsh(big.NewInt(1), bits)
+			nd := len(top.String())
+			lo := ref.Pow10(int64(nd - 1))
+			span := new(big.Int).Sub(top, lo)
+			v, _ := new(big.Int).SetString(gen.DigitsN(t, nd+3, 9, "wqv"), 10)
+			v.Mod(v, span).Add(v, lo) // nd digits, below 2^bits
+			c.Ctx.P = uint32(nd - 1 + rapid.IntRange(-1, 1).Draw(t, "wqp"))
+			c.X = gen.FromBig(v, 0)
+			c.X.Neg = rapid.Bool().Draw(t, "wqxn")
+			c.Y = core.Dec{Coeff: fmt.Sprint(rapid.IntRange(1, 12).Draw(t, "wqy")), Neg: rapid.Bool().Draw(t, "wqyn")}
+			if sh := rapid.IntRange(-3, 3).Draw(t, "wqs"); sh != 0 {
+				c.X.Exp, c.Y.Exp = int32(sh), int32(sh) // the same pair at another common exponent
+			}
+			if rapid.Bool().Draw(t, "wqfrac") { // 1.5, 2.5 ... : the dividend is scaled by ten first
+				c.Y.Coeff += "5"
+				c.Y.Exp--
+			}
+		}
 	case "quantize":
 		c.X = gen.Finite(t, ctx, "x")
 		c.QExp = QuantExp(t, ctx, c.X)
